@@ -28,7 +28,14 @@ func c12FreshTypes(w *c12World, rounds, goroutines int) {
 			})
 		}
 		t0, t1, t2 := leaf(0), leaf(1), leaf(2)
+		// a wide record: building its codec takes long enough for two first builds to overlap
+		var wideFields []reflect.StructField
+		for i := 0; i < 90; i++ {
+			wideFields = append(wideFields, reflect.StructField{Name: fmt.Sprintf("W%dx%d", round, i), Type: i64, Tag: reflect.StructTag(fmt.Sprintf(`json:"w%d"`, i))})
+		}
+		wide := reflect.StructOf(wideFields)
 		holder := reflect.StructOf([]reflect.StructField{
+			{Name: "Wide", Type: wide, Tag: `json:"wide"`},
 			{Name: "A", Type: reflect.PointerTo(t0), Tag: `json:"a"`},
 			{Name: "B", Type: reflect.SliceOf(reflect.PointerTo(t1)), Tag: `json:"b"`},
 			{Name: "C", Type: reflect.PointerTo(t2), Tag: `json:"c"`},
@@ -41,30 +48,62 @@ func c12FreshTypes(w *c12World, rounds, goroutines int) {
 			return p
 		}
 		want := reflect.New(holder)
-		want.Elem().Field(0).Set(mk(t0, 1))
+		for i := 0; i < 90; i++ {
+			want.Elem().Field(0).Field(i).SetInt(int64(round*1000 + i + 1))
+		}
+		want.Elem().Field(1).Set(mk(t0, 1))
 		bs := reflect.MakeSlice(reflect.SliceOf(reflect.PointerTo(t1)), 0, 5)
 		for k := 0; k < 5; k++ {
 			bs = reflect.Append(bs, mk(t1, 10+k))
 		}
-		want.Elem().Field(1).Set(bs)
-		want.Elem().Field(2).Set(mk(t2, 2))
+		want.Elem().Field(2).Set(bs)
+		want.Elem().Field(3).Set(mk(t2, 2))
 		m := reflect.MakeMap(reflect.MapOf(str, reflect.PointerTo(t0)))
 		m.SetMapIndex(reflect.ValueOf("k"), mk(t0, 3))
-		want.Elem().Field(3).Set(m)
+		want.Elem().Field(4).Set(m)
 
 		schema, err := avro.SchemaForType(want.Elem().Interface())
 		if err != nil {
 			w.fail(round, -1, "concurrent-result-differs", fmt.Sprintf("fresh types: SchemaForType refuses %v: %v", holder, err))
 			return
 		}
-		codec, err := schema.Codec(want.Elem().Interface())
-		if err != nil {
-			w.fail(round, -1, "concurrent-result-differs", fmt.Sprintf("fresh types: no codec for %v: %v", holder, err))
-			return
+		// The bytes are written by hand on odd rounds (so that no codec for these types has been
+		// built before the goroutines build theirs, all at once) and by the library on even
+		// rounds (one shared codec, built before).
+		var codec avro.Codec
+		var data []byte
+		if round%2 == 0 {
+			codec, err = schema.Codec(want.Elem().Interface())
+			if err != nil {
+				w.fail(round, -1, "concurrent-result-differs", fmt.Sprintf("fresh types: no codec for %v: %v", holder, err))
+				return
+			}
+			wb := avro.NewWriteBuf(nil)
+			codec.Write(wb, want.UnsafePointer())
+			data = append([]byte{}, wb.Bytes()...)
+		} else {
+			str := func(s string) []byte { return append(specVarint(int64(len(s))), s...) }
+			leafBytes := func(v reflect.Value) (o []byte) { // [null, record{f long, g string}], non-null
+				o = append(o, 2)
+				o = append(o, specVarint(v.Elem().Field(0).Int())...)
+				return append(o, str(v.Elem().Field(1).String())...)
+			}
+			for i := 0; i < 90; i++ {
+				data = append(data, specVarint(want.Elem().Field(0).Field(i).Int())...)
+			}
+			data = append(data, leafBytes(want.Elem().Field(1))...)
+			bsv := want.Elem().Field(2)
+			data = append(data, specVarint(int64(bsv.Len()))...)
+			for i := 0; i < bsv.Len(); i++ {
+				data = append(data, leafBytes(bsv.Index(i))...)
+			}
+			data = append(data, 0)
+			data = append(data, leafBytes(want.Elem().Field(3))...)
+			data = append(data, specVarint(1)...)
+			data = append(data, str("k")...)
+			data = append(data, leafBytes(want.Elem().Field(4).MapIndex(reflect.ValueOf("k")))...)
+			data = append(data, 0)
 		}
-		wb := avro.NewWriteBuf(nil)
-		codec.Write(wb, want.UnsafePointer())
-		data := append([]byte{}, wb.Bytes()...)
 
 		var ready, wg sync.WaitGroup
 		var release atomic.Bool
@@ -83,6 +122,16 @@ func c12FreshTypes(w *c12World, rounds, goroutines int) {
 				ready.Done()
 				for !release.Load() {
 				}
+				codec := codec
+				if codec == nil {
+					// every goroutine builds the codec for the never-seen types itself, now
+					c, err := schema.Codec(reflect.New(holder).Elem().Interface())
+					if err != nil {
+						w.fail(round, g, "concurrent-result-differs", fmt.Sprintf("fresh types: Schema.Codec fails when %d goroutines build for the same new type at once: %v", goroutines, err))
+						return
+					}
+					codec = c
+				}
 				if err := codec.Read(rb, got.UnsafePointer()); err != nil {
 					w.fail(round, g, "concurrent-result-differs", fmt.Sprintf("fresh types: decode fails when %d goroutines meet the types at once: %v", goroutines, err))
 					return
@@ -90,7 +139,7 @@ func c12FreshTypes(w *c12World, rounds, goroutines int) {
 				// a second record right behind the first, into the same banked memory
 				rb2 := avro.NewReadBuf(data)
 				got2 := reflect.New(holder)
-				if err := codec.Read(rb2, got2.UnsafePointer()); err != nil {
+				if err := codec.Read(rb2, got2.UnsafePointer()); err != nil { //nolint
 					w.fail(round, g, "concurrent-result-differs", fmt.Sprintf("fresh types: second decode fails: %v", err))
 					return
 				}
@@ -298,4 +347,122 @@ func c12BankChurn(w *c12World, goroutines int, iters int) {
 		}
 	}
 	w.count("bank-churn/goroutines", goroutines)
+}
+
+// c12SharedShapes: one built codec per shape, shared by eight goroutines that decode (and skip)
+// the same bytes over and over into private targets.  The shapes are those whose codecs do
+// something lazily or per entry at decode time - allocation through New for map values of every
+// union kind, nested maps, records and pointers as elements, fields skipped because the target
+// lacks them - so that anything a built codec writes to itself while decoding meets the race
+// detector, and anything it gets wrong meets the expected value (known by construction).
+func c12SharedShapes(w *c12World, iters int) {
+	i64 := func(v int64) *int64 { return &v }
+	str := func(v string) *string { return &v }
+	type recAS struct {
+		A int64  `json:"a"`
+		S string `json:"s"`
+	}
+	type shape struct {
+		name   string
+		schema string
+		target any // pointer to a zero value of the target struct
+		data   []byte
+		want   any
+	}
+	type t1 struct {
+		M map[string]int64 `json:"m"`
+	}
+	type t3 struct {
+		M map[string]*int64 `json:"m"`
+	}
+	type t4 struct {
+		M map[string]map[string]string `json:"m"`
+	}
+	type t5 struct {
+		L []*recAS `json:"l"`
+	}
+	type t6 struct {
+		M map[string][]int64 `json:"m"`
+	}
+	type t7 struct {
+		M map[string]*string `json:"m"`
+	}
+	type t8 struct {
+		Tail int64 `json:"tail"`
+	}
+	type t9 struct {
+		M map[string]recAS `json:"m"`
+	}
+	rec := func(ft string) string {
+		return `{"type":"record","name":"r","fields":[{"name":"m","type":` + ft + `}]}`
+	}
+	shapes := []shape{
+		{"map of [null,int,long]", rec(`{"type":"map","values":["null","int","long"]}`), &t1{},
+			[]byte{6, 2, 'a', 2, 10, 2, 'b', 4, 12, 2, 'c', 0, 0}, &t1{M: map[string]int64{"a": 5, "b": 6, "c": 0}}},
+		{"map of [int,long]", rec(`{"type":"map","values":["int","long"]}`), &t1{},
+			[]byte{4, 2, 'a', 0, 10, 2, 'b', 2, 12, 0}, &t1{M: map[string]int64{"a": 5, "b": 6}}},
+		{"map of [null,long] into pointers", rec(`{"type":"map","values":["null","long"]}`), &t3{},
+			[]byte{4, 2, 'a', 2, 10, 2, 'b', 0, 0}, &t3{M: map[string]*int64{"a": i64(5), "b": nil}}},
+		{"map of maps", rec(`{"type":"map","values":{"type":"map","values":"string"}}`), &t4{},
+			[]byte{2, 2, 'o', 2, 2, 'i', 4, 'x', 'y', 0, 0}, &t4{M: map[string]map[string]string{"o": {"i": "xy"}}}},
+		{"array of [null,record]", `{"type":"record","name":"r","fields":[{"name":"l","type":{"type":"array","items":["null",{"type":"record","name":"e","fields":[{"name":"a","type":"long"},{"name":"s","type":"string"}]}]}}]}`, &t5{},
+			[]byte{6, 2, 14, 2, 'q', 0, 2, 16, 0, 0}, &t5{L: []*recAS{{7, "q"}, nil, {8, ""}}}},
+		{"map of arrays", rec(`{"type":"map","values":{"type":"array","items":"long"}}`), &t6{},
+			[]byte{2, 2, 'k', 4, 2, 4, 0, 0}, &t6{M: map[string][]int64{"k": {1, 2}}}},
+		{"map of [string,null]", rec(`{"type":"map","values":["string","null"]}`), &t7{},
+			[]byte{4, 2, 'a', 0, 2, 'z', 2, 'b', 2, 0}, &t7{M: map[string]*string{"a": str("z"), "b": nil}}},
+		{"skipped general-union map and record", `{"type":"record","name":"r","fields":[{"name":"gone","type":{"type":"map","values":["null","int","string"]}},{"name":"also","type":{"type":"array","items":{"type":"record","name":"e","fields":[{"name":"a","type":"long"},{"name":"s","type":"string"}]}}},{"name":"tail","type":"long"}]}`, &t8{},
+			[]byte{4, 2, 'a', 2, 10, 2, 'b', 4, 2, 'x', 0, 2, 14, 2, 'q', 0, 18}, &t8{Tail: 9}},
+		{"map of records", rec(`{"type":"map","values":{"type":"record","name":"e","fields":[{"name":"a","type":"long"},{"name":"s","type":"string"}]}}`), &t9{},
+			[]byte{4, 2, 'a', 14, 2, 'q', 2, 'b', 16, 0, 0}, &t9{M: map[string]recAS{"a": {7, "q"}, "b": {8, ""}}}},
+	}
+	for _, sh := range shapes {
+		s, err := avro.SchemaFromString(sh.schema)
+		if err != nil {
+			w.fail(-1, -1, "concurrent-result-differs", fmt.Sprintf("shared shapes: schema of %q does not parse: %v", sh.name, err))
+			continue
+		}
+		rt := reflect.TypeOf(sh.target).Elem()
+		codec, err := s.Codec(reflect.New(rt).Elem().Interface())
+		if err != nil {
+			w.fail(-1, -1, "concurrent-result-differs", fmt.Sprintf("shared shapes: no codec for %q: %v", sh.name, err))
+			continue
+		}
+		var wg sync.WaitGroup
+		var release atomic.Bool
+		for g := 0; g < 8; g++ {
+			wg.Add(1)
+			go func(g int) {
+				defer wg.Done()
+				defer func() {
+					if p := recover(); p != nil {
+						w.fail(-1, g, "concurrent-panic", fmt.Sprintf("shared shapes: %q: %v", sh.name, p))
+					}
+				}()
+				for !release.Load() {
+				}
+				for it := 0; it < iters; it++ {
+					got := reflect.New(rt)
+					rb := avro.NewReadBuf(sh.data)
+					if err := codec.Read(rb, got.UnsafePointer()); err != nil || rb.Len() != 0 {
+						w.fail(it, g, "concurrent-result-differs", fmt.Sprintf("shared shapes: %q through a codec shared by 8 goroutines: error %v, %d bytes left", sh.name, err, rb.Len()))
+						return
+					}
+					if !reflect.DeepEqual(got.Interface(), sh.want) {
+						w.fail(it, g, "concurrent-result-differs", fmt.Sprintf("shared shapes: %q through a codec shared by 8 goroutines decodes to %s, alone to %s", sh.name, c12Show(got.Elem()), c12Show(reflect.ValueOf(sh.want).Elem())))
+						return
+					}
+					rb.ExtractResourceBank().Close()
+					rs := avro.NewReadBuf(sh.data)
+					if err := codec.Skip(rs); err != nil || rs.Len() != 0 {
+						w.fail(it, g, "concurrent-result-differs", fmt.Sprintf("shared shapes: skipping %q through a shared codec: error %v, %d bytes left", sh.name, err, rs.Len()))
+						return
+					}
+				}
+			}(g)
+		}
+		release.Store(true)
+		wg.Wait()
+		w.count("shared-shapes", 1)
+	}
 }
